@@ -1,5 +1,5 @@
 From Coq Require Import ZArith List Bool.
-From RV Require Import Base.Wire Host.LCDAnim Device.DLCDAnim Device.DLCDInject.
+From RV Require Import Base.Wire Host.LCDAnim Device.DLCDAnim Device.DLCDAnimW Device.DLCDInject.
 Import ListNotations.
 Open Scope Z_scope.
 
@@ -10,6 +10,8 @@ Open Scope Z_scope.
    case 4 (tree)  : (4 (stmt...) (stmt...))            setup block, main-loop block;
                     stmt = (0 name style) lcd.animate | (1) other | (2 kind (body...))  body = (stmt...)
                     kind: 0 if (branches then else), 1 while, 2 for, 3 try (try body then handlers)
+   case 6 (device, W-bit clock): (6 W cols rows (anim...) (t...))   t = TRUE tick times (any size); millis() = t mod 2^W,
+                    the limiter computed in W-bit unsigned arithmetic (Device/DLCDAnimW.v); speed_ms cast to W bits
    style: 0 scroll, 1 blink, 2 typewriter, 3 bounce *)
 
 Definition un_style (z : Z) : option style :=
@@ -98,6 +100,29 @@ Fixpoint d_ticks (cols : Z) (anims : list (style * dstate)) (m : list (list Z)) 
         :: d_ticks cols anims' m' rest
   end.
 
+(* the same with the clock arithmetic of a W-bit unsigned long *)
+Fixpoint d_startsW (W cols : Z) (as_ : list (Z * Z * list Z * Z * bool)) : option (list (style * dstate) * list dev) :=
+  match as_ with
+  | [] => Some ([], [])
+  | (s, row, text, speed, loop) :: rest =>
+      match un_style s, d_startsW W cols rest with
+      | Some sty, Some (sts, evs) =>
+          let '(st, ev) := dstart_emit W sty cols row text speed loop in Some ((sty, st) :: sts, ev ++ evs)
+      | _, _ => None
+      end
+  end.
+
+Fixpoint d_ticksW (W cols : Z) (anims : list (style * dstate)) (m : list (list Z)) (ts : list Z) : list wv :=
+  match ts with
+  | [] => []
+  | t :: rest =>
+      let flags := map (fun a => wbool (dgateW W (snd a) (uwrap W t))) anims in
+      let '(anims', ev) := dtick_allW W cols t anims in
+      let m' := apply_devs ev m in
+      WL [WL (map w_dev ev); w_matrix m'; WL flags; WL (map (fun a => wbool (d_active (snd a))) anims')]
+        :: d_ticksW W cols anims' m' rest
+  end.
+
 Definition un_site (v : wv) : option site :=
   match v with
   | WL [WI n; WI s] => match un_style s with Some sty => Some (n, sty) | None => None end
@@ -168,6 +193,17 @@ Definition run (v : wv) : wv :=
           | Some (sts, ev0) =>
               let m0 := apply_devs ev0 (blank_matrix cols rows) in
               wok [WL (map w_dev ev0); w_matrix m0; WL (d_ticks cols sts m0 ts)]
+          end
+      | _, _ => wbad
+      end
+  | WL [WI 6; WI W; WI cols; WI rows; WL as_; nows] =>
+      match un_anims as_, un_text nows with
+      | Some anims, Some ts =>
+          match d_startsW W cols anims with
+          | None => wbad
+          | Some (sts, ev0) =>
+              let m0 := apply_devs ev0 (blank_matrix cols rows) in
+              wok [WL (map w_dev ev0); w_matrix m0; WL (d_ticksW W cols sts m0 ts)]
           end
       | _, _ => wbad
       end
